@@ -1,0 +1,68 @@
+// Copyright 2015, Joe Tsai. All rights reserved.
+// Use of this source code is governed by a BSD-style
+// license that can be found in the LICENSE.md file.
+
+//go:build verif
+// +build verif
+
+// This file exists to export internal implementation details to the
+// verification harness. It adds no behaviour and is compiled only with the
+// "verif" build tag.
+
+package xflate
+
+import (
+	"io"
+
+	"github.com/dsnet/compress/xflate/internal/meta"
+)
+
+// VerifRecord mirrors the unexported record type.
+type VerifRecord struct {
+	CompOffset, RawOffset int64
+	Type                  int
+}
+
+// VerifRecords returns a copy of the merged index of an opened Reader.
+func (xr *Reader) VerifRecords() []VerifRecord {
+	out := make([]VerifRecord, len(xr.idx.Records))
+	for i, r := range xr.idx.Records {
+		out[i] = VerifRecord{r.CompOffset, r.RawOffset, r.Type}
+	}
+	return out
+}
+
+// VerifState returns the logical read position, the pending discard count, the
+// output offset of the current chunk's decompressor and the record cursor.
+func (xr *Reader) VerifState() (offset, discard, zrOut int64, ri int) {
+	if xr.zr != nil {
+		zrOut = xr.zr.OutputOffset
+	}
+	return xr.offset, xr.discard, zrOut, xr.ri
+}
+
+// VerifIndexSearch runs index.Search over the given records.
+func VerifIndexSearch(recs []VerifRecord, offset int64) int {
+	var idx index
+	for _, r := range recs {
+		idx.Records = append(idx.Records, record{r.CompOffset, r.RawOffset, r.Type})
+	}
+	return idx.Search(offset)
+}
+
+// VerifNewMetaReader exposes meta.NewReader.
+func VerifNewMetaReader(r io.Reader) *meta.Reader { return meta.NewReader(r) }
+
+// VerifNewMetaWriter exposes meta.NewWriter.
+func VerifNewMetaWriter(w io.Writer) *meta.Writer { return meta.NewWriter(w) }
+
+// VerifMetaReverseSearch exposes meta.ReverseSearch.
+func VerifMetaReverseSearch(data []byte) int { return meta.ReverseSearch(data) }
+
+// Meta final modes and limits, re-exported.
+const (
+	VerifFinalNil       = int(meta.FinalNil)
+	VerifFinalMeta      = int(meta.FinalMeta)
+	VerifFinalStream    = int(meta.FinalStream)
+	VerifMetaMaxEncByte = meta.MaxEncBytes
+)
